@@ -33,7 +33,10 @@ def run_mounts(tables, path, root, iface):
 
     def leaf_w(tag):
         def app(environ, start_response):
-            seen["hit"] = (tag, environ.get("SCRIPT_NAME", ""), environ.get("PATH_INFO", ""))
+            # PEP 3333: the environ holds the Latin-1 reading of the path bytes; the reference speaks in text
+            def text(x):
+                return x.encode("latin-1").decode("utf-8", "surrogateescape")
+            seen["hit"] = (tag, text(environ.get("SCRIPT_NAME", "")), text(environ.get("PATH_INFO", "")))
             start_response("200 OK", [])
             return [b"ok"]
         return app
@@ -174,6 +177,16 @@ def bounded(tier, seed):
                         distinct.add((iface, t, path, root))
                     if v and len(failures) < 10:
                         failures.append({"inputs": {"tables": [list(t)], "path": path, "root": root, "iface": iface}, "violated": v})
+        # prefixes and paths that are not ASCII (WSGI hands the path over as the Latin-1 reading of its UTF-8 bytes)
+        for t in (["/café", "/caf"], ["/caf", "/café"], ["/é", ""], ["/日本", "/日"]):
+            for path in ("/café", "/café/x", "/caféx", "/caf/é", "/é", "/é/é", "/日本/語", "/日", "/x"):
+                for root in ("", "/r", "/ü"):
+                    evals += 1
+                    v = check_mounts([t], path, root, iface)
+                    if spec_mount(t, path) is not None:
+                        distinct.add((iface, tuple(t), path, root))
+                    if v and len(failures) < 10:
+                        failures.append({"inputs": {"tables": [t], "path": path, "root": root, "iface": iface}, "violated": v})
         # nesting depth 2 and 3
         nest = [([["/a", ""], ["/b", "/a", ""]]), ([["/a"], ["/b"], ["/a", ""]]), ([["", "/a"], ["/a/b", "/a"], [""]]),
                 ([["/a/b", "/a"], ["/b", ""]])]
@@ -196,6 +209,6 @@ def bounded(tier, seed):
                     failures.append({"inputs": {"kind": "hosts", "table": t, "host": host, "iface": iface}, "violated": v})
     return {"evaluations": evals, "distinct_nontrivial": len(distinct), "failures": failures, "samples": samples,
             "rule": "mount tables of 1..3 prefixes from ['', '/a', '/a/b', '/ab', '/b'] in every order (3: sample in quick) x all "
-                    "paths over {/,a,b} up to length %d x initial root in {'', '/r'}; nested tables of depth 2-3; host tables x 9 "
+                    "paths over {/,a,b} up to length %d x initial root in {'', '/r'}; non-ASCII prefixes and paths; nested tables of depth 2-3; host tables x 9 "
                     "Host values; both interfaces, against a reference written from the statement" % (4 if tier == "quick" else 6),
             "exhaustive": False}
